@@ -229,12 +229,12 @@ reg("C09", [M("C09", "wire", "packet_rt", _PKT_BOUNDS, _PKT_FUNCS)], _PKT_ASSUME
 
 reg("C01", [
     M("C01", "packet", "packet_bytes",
-      "Packet::parse on fully symbolic messages of every length 0,4,8,12..19 (quick) / ..23 (thorough): all header counts and all "
+      "Packet::parse on fully symbolic messages of every length 0,4,8,12..19 (quick) / ..21 (thorough): all header counts and all "
       "bytes symbolic; flags word fixed for L>12; Name::parse = contract stub for L>12; loop bound 40; also decides "
       "C01.alloc: sum of Vec::with_capacity element requests <= message length",
       ["Packet::parse", "Packet::parse_section", "Question::parse", "ResourceRecord::parse", "RData::parse", "parse_rdata",
        "typed RDATA parsers", "Header::parse", "header_buffer::*", "Header::extract_info_from_opt_rr"],
-      params={'K_quick': 7, 'K_thorough': 11}),
+      params={'K_quick': 7, 'K_thorough': 9}),
 ], [
     "C01.alloc counts element requests of Vec::with_capacity (the only explicit pre-allocations in the parse path); "
     "incremental Vec growth is bounded by the number of pushes, i.e. by the iteration variants",
@@ -440,10 +440,10 @@ reg("C16", [
 
 reg("C05", [
     M("C05", "counts", "packet_bytes",
-      "Packet::parse on fully symbolic messages of length 12..19 (quick) / ..23: whenever it succeeds, the number of questions / answers / "
+      "Packet::parse on fully symbolic messages of length 12..19 (quick) / ..21: whenever it succeeds, the number of questions / answers / "
       "authority / additional entries returned (OPT counted once) equals the four header counts - counts running past the end are rejected",
       ["Packet::parse", "Packet::parse_section", "header_buffer::{questions,answers,name_servers,additional_records}"],
-      params={'K_quick': 7, 'K_thorough': 11}),
+      params={'K_quick': 7, 'K_thorough': 9}),
 ], [])
 
 reg("C01", [
